@@ -244,6 +244,9 @@ func tmpBase(b *Build) string {
 
 // runWorkers runs one batch of workers and returns their outputs. A worker
 // that dies is reported in crashed (index of the run in progress, if known).
+// apiVersionEnv carries the API_VERSION of the tree under test to the workers.
+var apiVersionEnv string
+
 func runWorkers(bin string, jobs []Job, dir string, env []string, timeout time.Duration) ([]*Output, []string, error) {
 	os.MkdirAll(dir, 0755)
 	outs := make([]*Output, len(jobs))
@@ -267,6 +270,9 @@ func runWorkers(bin string, jobs []Job, dir string, env []string, timeout time.D
 				mp = 2
 			}
 			cmd.Env = append(append([]string{}, env...), "VSIM_WORKER=1", "VSIM_JOB="+jp, fmt.Sprintf("GOMAXPROCS=%d", mp), "GOTRACEBACK=single")
+			if apiVersionEnv != "" {
+				cmd.Env = append(cmd.Env, "VSIM_API_VERSION="+apiVersionEnv)
+			}
 			logf := filepath.Join(dir, fmt.Sprintf("log-%s-%d.txt", j.Kind, j.Worker))
 			lf, _ := os.Create(logf)
 			cmd.Stdout = lf
